@@ -9,14 +9,18 @@ RULE = ("H1 (real quote.c, token822.c, qmail-remote.c addrmangle, commands.c, qm
         "every local part over the 17-byte alphabet {a . @ \" \\ SP CR TAB ( ) < > [ ] : ; 0x80} up to length %(q)d (all 8 domains up to length %(q)d-2, "
         "one at the two top lengths), quoted by quote2/addrmangle and parsed back by token822_parse+unquote and by commands()+addrparse(); every string over the "
         "15-byte token alphabet {a SP , < > ( ) \" \\ : ; @ . [ ]} up to length %(p)d as a field body through token822_parse/unquote/unparse(80 and 3..7)/"
-        "re-parse/addrlist; seeded random long local parts (to 920 bytes, all bytes but NUL/LF), address lists from the RFC 822 grammar generator "
+        "re-parse/addrlist/addrlist-without-comment-tokens, every fourth one (and every generated list) also RE-RENDERED from the tokens the real parser "
+        "returned (random white space/folds, quoted-pairs, nested comment parentheses; described piece by piece so that the driver rebuilds the text with "
+        "the theorem's `render`) and parsed again by the real token822_parse; seeded random long local parts (to 920 bytes, all bytes but NUL/LF), address lists from the RFC 822 grammar generator "
         "(expected mailboxes known by construction), token soup. H2 (real qmail-inject.c main with headerbody.c, hfield.c, newfield.c and a stand-in queue): "
         "448 systematic flag/strategy/resent/args combinations, %(s)d messages with generated headers (To/Cc/Bcc/Apparently-To/Resent-*/sender fields/"
         "Return-Path, groups, routes, comments, quoted strings, literals, folding, missing commas) x random -a/-h/-H/-n/-f and QMAILINJECT letters and "
         "default host/domain/plus configurations, %(m)d malformed messages; each produced message is injected a second time with -h. Every case also runs "
         "through the compiled Lean model (quote2/parse/unquote/unparse/addrlist/addrmangle/addrparse/inject). Oracles on the implementation's own output: "
         "unquote(parse(quote2 a))=a with shape word(.word)*@domain; addrparse(commands(MAIL FROM:<addrmangle a>))=a (or refused beyond 899 bytes, or "
-        "localiphost for a local IP literal); parse(unparse ts)=ts; addrlist callbacks = listed mailboxes; envelope recipients = listed mailboxes after the "
+        "localiphost for a local IP literal); parse(unparse ts)=ts; parse(render cts)=tokens of cts for every legal description (C17_parse_render); "
+        "addrlist(ts) and addrlist(ts without comment tokens) return the same value and make the same callbacks (C17_comments_ignored); "
+        "addrlist callbacks = listed mailboxes; envelope recipients = listed mailboxes after the "
         "documented rewriting per strategy; no Bcc/Resent-Bcc/Return-Path/Content-Length in the output; second injection yields the same visible recipients. "
         "non-trivial = distinct case whose local part needs quoting (Q), whose string is longer than 3 bytes (P), or that carries generated mailboxes (I)")
 
@@ -31,6 +35,8 @@ def case_line(f):
         return "Q %s %s" % (f["in"], f["dom"])
     if k.startswith("P"):
         return "P %s %s %s" % (f.get("n", "80"), f["in"], f.get("E", "X"))
+    if k.startswith("R"):
+        return "R %s %s" % (f["desc"], f["text"])
     if k.startswith("I") and k != "I2":
         return "I %s %s %s %s %s %s %s" % (f["flags"], f["strat"], f["f"], f["args"], f["env"], f["in"], f.get("E", "X"))
     return None
@@ -91,6 +97,8 @@ def stdin_cases(disagree, seed, per=300):
                 for _ in range(per):
                     cases.add("Q %s %s" % (mutate_hex(f["in"], rnd, alpha), f["dom"]))
                     cases.add("Q %s %s" % (f["in"], mutate_hex(f["dom"], rnd, b"a.[]127")))
+            elif k in ("R", "Rtext"):
+                cases.add("R %s %s" % (f["desc"], f["text"]))
             elif k == "P":
                 for n in ("80", "5", f.get("n", "80")):
                     cases.add("P %s %s" % (n, f["in"]))
@@ -187,7 +195,7 @@ def main():
                      "quote2/parse/unquote/unparse/addrlist/addrmangle/addrparse/inject (Nq/Quote.lean, Token822.lean, SmtpAddr.lean, Inject.lean) "
                      "vs quote.c, token822.c, qmail-remote.c, commands.c, qmail-smtpd.c, qmail-inject.c, headerbody.c, hfield.c",
                      None,
-                     replay_hint="./check C17 --replay <this file>  (or a file of stdin cases: 'Q <local hex> <domain hex>' | 'P <linelen> <hex> [E]' | 'I …' as printed by harness/c17_inject.c)")
+                     replay_hint="./check C17 --replay <this file>  (or a file of stdin cases: 'Q <local hex> <domain hex>' | 'P <linelen> <hex> [E]' | 'R <desc> <text hex>' | 'I …' as printed by harness/c17_inject.c)")
     c.finish()
 
 
